@@ -44,11 +44,16 @@ struct Job {
     /// explore every schedule (true) or only the default one (false)
     explore: bool,
     cap_s: u64,
+    /// None: stateful exploration of ALL schedules with the happens-before
+    /// state cache. Some(k): stateless exploration of every schedule with at
+    /// most k deviations from the default schedule (delay bounding; no cache,
+    /// hence no assumption about what the threads share).
+    bound: Option<usize>,
 }
 
 impl Job {
     fn to_json(&self) -> Value {
-        json!({"set": self.set, "mode": self.mode, "files": self.files, "batch": self.batch, "fd": self.fd, "threads": self.threads, "explore": self.explore, "cap_s": self.cap_s})
+        json!({"set": self.set, "mode": self.mode, "files": self.files, "batch": self.batch, "fd": self.fd, "threads": self.threads, "explore": self.explore, "cap_s": self.cap_s, "bound": self.bound})
     }
     fn from_json(v: &Value) -> Job {
         Job {
@@ -60,13 +65,15 @@ impl Job {
             threads: v["threads"].as_u64().unwrap() as u32,
             explore: v["explore"].as_bool().unwrap(),
             cap_s: v["cap_s"].as_u64().unwrap_or(600),
+            bound: v["bound"].as_u64().map(|b| b as usize),
         }
     }
     fn describe(&self) -> String {
         format!(
-            "{} {} files={:?} batch={} fd={} threads={}",
+            "{} {} files={:?} batch={} fd={} threads={}{}",
             if self.set { "set" } else { "map" },
-            self.mode, self.files, self.batch, self.fd, self.threads
+            self.mode, self.files, self.batch, self.fd, self.threads,
+            match self.bound { Some(k) => format!(" [stateless, <= {} deviations from the default schedule]", k), None => String::new() }
         )
     }
     /// The reference model of the merge.
@@ -261,7 +268,7 @@ fn run_job(job: &Job) -> JobResult {
             break;
         }
         let plen = prefix.len();
-        let (o, verdict) = execute(job, &inputs, prefix.clone(), if job.explore { Some(visited.clone()) } else { None }, &mut first_bytes);
+        let (o, verdict) = execute(job, &inputs, prefix.clone(), if job.explore && job.bound.is_none() { Some(visited.clone()) } else { None }, &mut first_bytes);
         r.execs += 1;
         r.steps += o.steps;
         r.max_choice_points = r.max_choice_points.max(o.choices.len());
@@ -284,8 +291,20 @@ fn run_job(job: &Job) -> JobResult {
             }
         }
         if job.explore {
+            // deviations from the default schedule (first enabled thread in
+            // canonical order) used before choice i
+            let mut used = vec![0usize; o.choices.len() + 1];
+            for (i, c) in o.choices.iter().enumerate() {
+                used[i + 1] = used[i] + (c.chosen != 0) as usize;
+            }
             for i in plen..o.choices.len() {
                 for alt in 1..o.choices[i].n {
+                    if let Some(k) = job.bound {
+                        let cost = used[i] + 1;
+                        if cost > k {
+                            continue;
+                        }
+                    }
                     let mut p: Vec<usize> = sched[..i].to_vec();
                     p.push(alt);
                     stack.push(p);
@@ -484,20 +503,29 @@ fn explore_jobs(tier: Tier) -> Vec<Job> {
                 if thorough && huge && ii == 1 {
                     continue;
                 }
-                v.push(Job { set: false, mode: mode.into(), files: vec![inp.clone()], batch, fd, threads, explore: true, cap_s: cap });
+                v.push(Job { set: false, mode: mode.into(), files: vec![inp.clone()], batch, fd, threads, explore: true, cap_s: cap, bound: None });
             }
         }
-        v.push(Job { set: true, mode: "sum".into(), files: vec![set_input.clone()], batch, fd, threads, explore: true, cap_s: cap });
+        v.push(Job { set: true, mode: "sum".into(), files: vec![set_input.clone()], batch, fd, threads, explore: true, cap_s: cap, bound: None });
+    }
+    // stateless, deviation-bounded exploration (no state cache, so no
+    // assumption that the threads interact through the channels only)
+    {
+        let inp = map_inputs[0].clone();
+        let bounded: Vec<(u32, u32, u32, usize)> = if thorough { vec![(2, 2, 2, 3), (2, 3, 2, 3), (2, 2, 3, 2), (1, 2, 2, 2), (4, 2, 3, 3), (1, 4, 3, 2), (5, 2, 2, 4)] } else { vec![(2, 2, 2, 2), (2, 3, 2, 2), (2, 2, 3, 2), (5, 2, 2, 3)] };
+        for (batch, fd, threads, k) in bounded {
+            v.push(Job { set: false, mode: "sum".into(), files: vec![inp.clone()], batch, fd, threads, explore: true, cap_s: cap, bound: Some(k) });
+        }
     }
     // two input files
-    v.push(Job { set: false, mode: "sum".into(), files: vec![vec!["a,1".into(), "b,5".into()], vec!["a,2".into(), "c,7".into(), "b,1".into()]], batch: 2, fd: 2, threads: 2, explore: true, cap_s: cap });
+    v.push(Job { set: false, mode: "sum".into(), files: vec![vec!["a,1".into(), "b,5".into()], vec!["a,2".into(), "c,7".into(), "b,1".into()]], batch: 2, fd: 2, threads: 2, explore: true, cap_s: cap, bound: None });
     // (thorough) four batches, fd-limit 3: which three batch FSTs meet in the first union
     // depends on the order in which the workers report (12 groupings); the key
     // k is in three of the four batches
     if thorough {
-        v.push(Job { set: false, mode: "sum".into(), files: vec![vec!["w,8".into(), "k,1".into(), "k,2".into(), "k,4".into()]], batch: 1, fd: 3, threads: 2, explore: true, cap_s: cap });
-        v.push(Job { set: false, mode: "max".into(), files: vec![vec!["w,8".into(), "k,1".into(), "k,2".into(), "k,4".into()]], batch: 1, fd: 3, threads: 2, explore: true, cap_s: cap });
-        v.push(Job { set: false, mode: "min".into(), files: vec![vec!["k,1".into(), "k,2".into(), "w,8".into(), "k,4".into()]], batch: 1, fd: 3, threads: 2, explore: true, cap_s: cap });
+        v.push(Job { set: false, mode: "sum".into(), files: vec![vec!["w,8".into(), "k,1".into(), "k,2".into(), "k,4".into()]], batch: 1, fd: 3, threads: 2, explore: true, cap_s: cap, bound: None });
+        v.push(Job { set: false, mode: "max".into(), files: vec![vec!["w,8".into(), "k,1".into(), "k,2".into(), "k,4".into()]], batch: 1, fd: 3, threads: 2, explore: true, cap_s: cap, bound: None });
+        v.push(Job { set: false, mode: "min".into(), files: vec![vec!["k,1".into(), "k,2".into(), "w,8".into(), "k,4".into()]], batch: 1, fd: 3, threads: 2, explore: true, cap_s: cap, bound: None });
     }
     v
 }
@@ -517,15 +545,15 @@ fn grid_jobs(tier: Tier) -> Vec<Job> {
                         }
                         let modes: Vec<&str> = if set { vec!["sum"] } else { vec!["sum", "max", "min"] };
                         for mode in modes {
-                            v.push(Job { set, mode: mode.into(), files: vec![inp.clone()], batch, fd, threads, explore: false, cap_s: 60 });
+                            v.push(Job { set, mode: mode.into(), files: vec![inp.clone()], batch, fd, threads, explore: false, cap_s: 60, bound: None });
                             if inp.len() >= 2 && fd == 2 && threads <= 2 {
                                 let (a, b) = inp.split_at(inp.len() / 2);
-                                v.push(Job { set, mode: mode.into(), files: vec![a.to_vec(), b.to_vec()], batch, fd, threads, explore: false, cap_s: 60 });
+                                v.push(Job { set, mode: mode.into(), files: vec![a.to_vec(), b.to_vec()], batch, fd, threads, explore: false, cap_s: 60, bound: None });
                                 // an empty input file in first, middle and last position
                                 if threads == 1 && batch <= 2 {
-                                    v.push(Job { set, mode: mode.into(), files: vec![vec![], inp.clone()], batch, fd, threads, explore: false, cap_s: 60 });
-                                    v.push(Job { set, mode: mode.into(), files: vec![a.to_vec(), vec![], b.to_vec()], batch, fd, threads, explore: false, cap_s: 60 });
-                                    v.push(Job { set, mode: mode.into(), files: vec![inp.clone(), vec![]], batch, fd, threads, explore: false, cap_s: 60 });
+                                    v.push(Job { set, mode: mode.into(), files: vec![vec![], inp.clone()], batch, fd, threads, explore: false, cap_s: 60, bound: None });
+                                    v.push(Job { set, mode: mode.into(), files: vec![a.to_vec(), vec![], b.to_vec()], batch, fd, threads, explore: false, cap_s: 60, bound: None });
+                                    v.push(Job { set, mode: mode.into(), files: vec![inp.clone(), vec![]], batch, fd, threads, explore: false, cap_s: 60, bound: None });
                                 }
                             }
                         }
@@ -549,16 +577,16 @@ fn grid_jobs(tier: Tier) -> Vec<Job> {
                 }
                 // distinct keys (bytes must equal the sorted build) ...
                 let distinct: Vec<String> = (0..n).map(|i| format!("k{:02},{}", (i * 41) % n, i + 1)).collect();
-                v.push(Job { set: false, mode: "sum".into(), files: vec![distinct], batch: 1, fd, threads, explore: false, cap_s: 60 });
+                v.push(Job { set: false, mode: "sum".into(), files: vec![distinct], batch: 1, fd, threads, explore: false, cap_s: 60, bound: None });
                 // ... and every key occurring in about three batches
                 if fd == 3 || thorough {
                     let rep: Vec<String> = (0..n).map(|i| format!("k{:02},{}", i % ((n + 2) / 3), i + 1)).collect();
                     for mode in ["sum", "max", "min"] {
-                        v.push(Job { set: false, mode: mode.into(), files: vec![rep.clone()], batch: 1, fd, threads, explore: false, cap_s: 60 });
+                        v.push(Job { set: false, mode: mode.into(), files: vec![rep.clone()], batch: 1, fd, threads, explore: false, cap_s: 60, bound: None });
                     }
                 }
                 let lines: Vec<String> = (0..n).map(|i| format!("k{:02}", (i * 5) % (n - 2))).collect();
-                v.push(Job { set: true, mode: "sum".into(), files: vec![lines], batch: 1, fd, threads, explore: false, cap_s: 60 });
+                v.push(Job { set: true, mode: "sum".into(), files: vec![lines], batch: 1, fd, threads, explore: false, cap_s: 60, bound: None });
             }
         }
     }
@@ -625,7 +653,7 @@ fn replay(path: &str) -> ! {
     let inputs = write_inputs(&job, "u");
     for _ in 0..2 {
         let mut fb = None;
-        let (o, verdict) = execute(&Job { explore: false, ..job.clone() }, &inputs, sched.clone(), None, &mut fb);
+        let (o, verdict) = execute(&Job { explore: false, bound: None, ..job.clone() }, &inputs, sched.clone(), None, &mut fb);
         obs.push((o.choices.clone(), verdict));
     }
     let _ = std::fs::remove_dir_all(workdir());
@@ -636,7 +664,7 @@ fn replay(path: &str) -> ! {
     match &obs[0].1 {
         Ok(o) => {
             // a violation of the sorted/byte clauses is configuration level: re-run the job
-            let r = run_job(&Job { explore: false, ..job.clone() });
+            let r = run_job(&Job { explore: false, bound: None, ..job.clone() });
             if let Some((_, m, _)) = r.violation {
                 println!("replay C19: {}", m);
                 println!("VIOLATION property=C19 replay={}", path);
@@ -731,7 +759,7 @@ fn main() {
             }
         };
         for (job, v) in jobs.iter().zip(vals.iter()) {
-            let scope = if job.explore { format!("all-schedules {}", job.describe()) } else { "configuration-grid-default-schedule".to_string() };
+            let scope = if job.explore && job.bound.is_some() { format!("bounded-schedules {}", job.describe()) } else if job.explore { format!("all-schedules {}", job.describe()) } else { "configuration-grid-default-schedule".to_string() };
             let e = scopes.entry(scope).or_insert((0, 0));
             e.1 += 1;
             let capped = v["capped"].as_bool().unwrap_or(false);
@@ -745,7 +773,7 @@ fn main() {
             st.count("executions_started", v["execs"].as_u64().unwrap_or(0));
             st.count("executions_pruned_by_state_cache", v["pruned"].as_u64().unwrap_or(0));
             if job.explore {
-                explored.push((job.clone(), v["groupings"].as_array().unwrap_or(&vec![]).iter().map(|x| x.as_str().unwrap_or("").to_string()).collect(), !capped && v["violation"].is_null()));
+                if job.bound.is_none() { explored.push((job.clone(), v["groupings"].as_array().unwrap_or(&vec![]).iter().map(|x| x.as_str().unwrap_or("").to_string()).collect(), !capped && v["violation"].is_null())); }
                 st.nontrivial += v["states"].as_u64().unwrap_or(0);
                 st.max("max_choice_points_in_one_execution", v["max_choice_points"].as_u64().unwrap_or(0));
                 st.max("max_threads_in_one_execution", v["max_threads"].as_u64().unwrap_or(0));
@@ -888,7 +916,7 @@ fn main() {
         tier,
         st,
         &rep,
-        "SCHED: the real cmd::map::run / cmd::set::run (merge.rs, util.rs, app.rs included by path) run in-process; every channel send/receive, spawn and thread exit is a scheduling point; for each listed (input, batch size, fd-limit, threads, merge mode) ALL interleavings are explored with happens-before state caching; in every complete execution: exit Ok, no deadlock, every temp file created once, output opens, verifies, conforms to the v3 format (independent decoder), content == model merge (sum/max/min per key over all rows; distinct lines for sets), bytes identical across all schedules; configuration grid under the default schedule: every row sequence of length <= 3 (thorough 4) over {a,1 a,2 b,1 b,2} (sets: {a,b,ab}) x batch 1..R x fd-limit 2..4 x threads 1..4 x 3 modes x one/two/three input files (incl. an empty file in first, middle and last position); many-batches family: 5..24 (thorough 40) rows with batch size 1 x fd-limit 2..4 x threads {1,2,4,8,16} with distinct keys, keys repeated in three batches (3 modes) and line sets; plus byte identity with the --sorted build and a library build for inputs without repeated keys; the real binary free-running on a subset. non-trivial = distinct happens-before states of explored configurations".into(),
+        "SCHED: the real cmd::map::run / cmd::set::run (merge.rs, util.rs, app.rs included by path) run in-process; every channel send/receive, spawn and thread exit is a scheduling point; for each listed (input, batch size, fd-limit, threads, merge mode) ALL interleavings are explored with happens-before state caching; additionally, for some configurations, every schedule with at most k deviations from the default schedule (k = 1..3, delay bounding) is explored statelessly (no cache, hence no assumption about shared state); in every complete execution: exit Ok, no deadlock, every temp file created once, output opens, verifies, conforms to the v3 format (independent decoder), content == model merge (sum/max/min per key over all rows; distinct lines for sets), bytes identical across all schedules; configuration grid under the default schedule: every row sequence of length <= 3 (thorough 4) over {a,1 a,2 b,1 b,2} (sets: {a,b,ab}) x batch 1..R x fd-limit 2..4 x threads 1..4 x 3 modes x one/two/three input files (incl. an empty file in first, middle and last position); many-batches family: 5..24 (thorough 40) rows with batch size 1 x fd-limit 2..4 x threads {1,2,4,8,16} with distinct keys, keys repeated in three batches (3 modes) and line sets; plus byte identity with the --sorted build and a library build for inputs without repeated keys; the real binary free-running on a subset. non-trivial = distinct happens-before states of explored configurations".into(),
         vec![
             "threads of merge.rs interact only through the channels (immutable Arcs otherwise); files are written by one batch and read only in later generations; checked by the unique-file-name trace".into(),
             "two prefixes with equal per-thread histories (incl. identities of received messages) are the same Mazurkiewicz trace and have the same futures".into(),
